@@ -29,6 +29,8 @@ func NewScheduler(r runner.Runner) *Scheduler {
 		taskRunner: r,
 	}
 
+	verifInit(s)
+
 	return s
 }
 
@@ -48,6 +50,8 @@ func (s *Scheduler) Schedule(g *scheduler.ExecutionGraph) error {
 	)
 
 	for !s.isDone(g) {
+		s.verifIteration(g)
+
 		if atomic.LoadInt32(&s.cancelled) == 1 {
 			break
 		}
